@@ -277,11 +277,8 @@ func genRTT() *rapid.Generator[int64] {
 }
 
 func genSamples(t *rapid.T, c LimitCfg, maxN int) []Sample {
-	n := rapid.IntRange(1, maxN).Draw(t, "n")
 	dropPct := rapid.SampledFrom([]int{0, 5, 30, 100}).Draw(t, "droppct")
-	out := make([]Sample, 0, n)
-	start := int64(0)
-	for i := 0; i < n; i++ {
+	one := rapid.Custom(func(t *rapid.T) Sample {
 		s := Sample{RTT: genRTT().Draw(t, "rtt")}
 		switch rapid.IntRange(0, 6).Draw(t, "infk") {
 		case 0:
@@ -301,10 +298,17 @@ func genSamples(t *rapid.T, c LimitCfg, maxN int) []Sample {
 		}
 		s.Drop = rapid.IntRange(0, 99).Draw(t, "drop") < dropPct
 		if c.Windowed {
-			start += rapid.Int64Range(0, 200_000_000).Draw(t, "dt")
-			s.Start = start
+			s.Start = rapid.Int64Range(0, 200_000_000).Draw(t, "dt") // made cumulative below
 		}
-		out = append(out, s)
+		return s
+	})
+	out := rapid.SliceOfN(one, 1, maxN).Draw(t, "samples")
+	if c.Windowed {
+		start := int64(0)
+		for i := range out {
+			start += out[i].Start
+			out[i].Start = start
+		}
 	}
 	return out
 }
